@@ -454,6 +454,9 @@ func (op *redirOp) exec(fm *Frame, fops *[]formOwnedPort) Exception {
 		case src == -1:
 			// close
 			*dstPort = &Port{
+				// Reading value input produces no values (a nil channel
+				// would block the reader forever)
+				Chan: ClosedChan,
 				// Ensure that writing to value output throws an exception
 				sendStop: closedSendStop, sendError: &ErrPortDoesNotSupportValueOutput}
 		case src < 0 || src >= len(fm.ports) || fm.ports[src] == nil:
@@ -527,8 +530,9 @@ func fileRedirPort(mode parse.RedirMode, f *os.File) *Port {
 	}
 	return &Port{
 		File: f,
-		// Throws errValueOutputIsClosed when writing.
-		Chan: nil, sendStop: closedSendStop, sendError: &ErrPortDoesNotSupportValueOutput,
+		// Produces no values when reading; throws
+		// ErrPortDoesNotSupportValueOutput when writing.
+		Chan: ClosedChan, sendStop: closedSendStop, sendError: &ErrPortDoesNotSupportValueOutput,
 	}
 }
 
